@@ -5,6 +5,7 @@ import (
 	"bytes"
 	"context"
 	"fmt"
+	"github.com/gokrazy/rsync/verifhook"
 	"io"
 	"net"
 	"os"
@@ -214,13 +215,21 @@ func runDaemonReqs(r *run) error {
 		}
 		// a file list that would create and (with --delete) remove entries if it were accepted
 		var pl bytes.Buffer
-		if hasLong(flags, "--sender") {
+		// what the daemon will expect is decided by how the argument lines parse, not by how they look
+		// ("-f" takes the next line as its rule, be it "--sender" or "--delete")
+		isSender, isDelete := hasLong(flags, "--sender"), hasLong(flags, "--delete")
+		o := (&hostileSpec{}).fopts(flags) // the fields the daemon will expect per entry (-o, -g, -c ...)
+		if po, _, perr := verifhook.ParseOpts(flags); perr == nil {
+			isSender, isDelete = po.Sender(), po.DeleteMode()
+			o = fopts{uid: po.PreserveUid(), gid: po.PreserveGid(), links: po.PreserveLinks(), devices: po.PreserveDevices(),
+				specials: po.PreserveSpecials(), checksum: po.AlwaysChecksum()}
+		}
+		if isSender {
 			pl.Write(le32(0)) // empty filter list; the daemon then sends its file list
-		} else if hasLong(flags, "--delete") {
+		} else if isDelete {
 			pl.Write(le32(0))
 		}
-		o := (&hostileSpec{}).fopts(flags) // the fields the daemon will expect per entry (-o, -g, -c ...)
-		if !hasLong(flags, "--sender") {
+		if !isSender {
 			refEncodeEntry(&pl, o, fchoice{long: true}, fentry{name: []byte("."), mode: sIFDIR | 0o755, mtime: 1_500_000_000, csum: make([]byte, 16)}, false)
 			refEncodeEntry(&pl, o, fchoice{long: true}, fentry{name: []byte("uploaded"), mode: sIFDIR | 0o755, mtime: 1_500_000_000, csum: make([]byte, 16)}, false)
 			pl.WriteByte(0)
